@@ -47,11 +47,13 @@ def run(repo, rep):
 
     decode_set = pdu_decode_raise_set(repo)
     # K1
-    finals = []
+    finals, blog = [], []
     for name in PRODUCERS:
         rep.analysed(pm.method(name))
-        finals.extend(pm.paths(name, raises_of=make_raises(repo, decode_set)))
-    probs = blocking_problems(finals)
+        f_, l_ = pm.paths_and_log(name, raises_of=make_raises(repo, decode_set))
+        finals.extend(f_)
+        blog.extend(l_)
+    probs = blocking_problems(finals, blog)
     rep.check(not probs, 'C13.K1', 'dulprovider:DULServiceProvider:blocking-calls', pm.cls.loc(),
               'all socket reads / polls / queue gets on %d producer paths are bounded by a timeout' % len(finals), '; '.join(probs))
 
